@@ -197,21 +197,31 @@ def betw_request(A, w, S, T, perm):
 
 
 def impl_betw(pnet, S, T, perm):
-    """the 7 sections of `betwRelabelled`: the renumbered target list, and — for C03's kernel model
+    """the 10 sections of `betwRelabelled`: the renumbered target list, and — for C03's kernel model
     and for its definition alike — `nsi_betweenness(sources, targets)` of the renumbered network
     called with the node lists renumbered through the inverse permutation (list order kept);
     round 5b (C03's wrapper model `apiBetweenness`, theorem net_betweenness_api_relabel): the
     defaults `nsi_betweenness()`, `sources=` only, `targets=` only (the renumbered network's
     default `np.arange(N)` is a rearrangement of the old default renumbered, not the same list),
     and `interregional_betweenness(sources, targets)` (unit weights)"""
+    from pyunicorn.core import InteractingNetworks
     inv = np.argsort(np.array(perm))
     Sp, Tp = [int(inv[k]) for k in S], [int(inv[k]) for k in T]
     got = attempt(pnet.nsi_betweenness, sources=Sp, targets=Tp)
+    # round 5d (C11's wrapper models `Cross.crossBetweenness` / `internalBetweenness` /
+    # `nsiCrossBetweenness`, theorems cross_betweenness_relabel, cross_internal_betweenness_relabel,
+    # cross_nsi_betweenness_relabel): the node-group measures of an `InteractingNetworks` built from
+    # the renumbered adjacency matrix and node weights, called with the renumbered node lists
+    pin = quiet(InteractingNetworks, adjacency=pnet.adjacency, node_weights=pnet.node_weights,
+                silence_level=3)
     return [[float(x) for x in Tp], got, got,
             attempt(pnet.nsi_betweenness),
             attempt(pnet.nsi_betweenness, sources=Sp),
             attempt(pnet.nsi_betweenness, targets=Tp),
-            attempt(pnet.interregional_betweenness, sources=Sp, targets=Tp)]
+            attempt(pnet.interregional_betweenness, sources=Sp, targets=Tp),
+            attempt(pin.cross_betweenness, Sp, Tp),
+            attempt(pin.internal_betweenness, Sp),
+            attempt(pin.nsi_cross_betweenness, Sp, Tp)]
 
 
 def impl_net(pnet, directed, connected):
@@ -1089,7 +1099,9 @@ def run(ctx):
                      "definition is no longer a hypothesis of a theorem — net_betweenness_kernel_relabel is "
                      "proved for every undirected network — and stays as a correspondence; round 5b: the "
                      "wrapper model apiBetweenness with default sources / targets and "
-                     "interregional_betweenness)",
+                     "interregional_betweenness; round 5d: C11's wrapper models crossBetweenness, "
+                     "internalBetweenness, nsiCrossBetweenness == cross_betweenness, internal_betweenness, "
+                     "nsi_cross_betweenness of InteractingNetworks(renumbered) with the renumbered node lists)",
              "netw": "C03 model `Net` / `NetRW` (link-weighted `key=` motif clustering, "
                      "weighted_local_clustering with the renumbered link attribute)",
              "cross": "C11 model `Cross` (cross / internal measures with node lists renumbered by "
